@@ -12,7 +12,7 @@ Driver for C14.  One line = `["validate", <file description>]`; the answer is
 `["guards", <function>, {<read path>: <value>, …}]` evaluates the conditions of that function's report sites as compiled
 from the source (`Generated/ValidatorGuards.lean`) under `PyGuard.eval`, the reads returning the given Python values
 (`null`, `["bool", b]`, `["int", n]`, `["rat", "n/d"]`, `["str", s]`, `["rats", […]]`, `["strs", […]]`, `["ints", […]]`,
-`["strss", [[…]]]`, `["sized", n]`, `["enum", name]`; a path that is absent reads as `None`); the answer is the list of
+`["strss", [[…]]]`, `["intss", [[…]]]`, `["sized", n]`, `["enum", name]`; a path that is absent reads as `None`); the answer is the list of
 identifiers whose site fires, in source order, or `{"err": <class>}`.
 -/
 namespace Driver.C14
@@ -184,6 +184,7 @@ def pyVal (j : Json) : P Val :=
     | [.str "strs", v] => return .strs (← (← arr v).mapM str)
     | [.str "ints", v] => return .ints (← (← arr v).mapM int)
     | [.str "strss", v] => return .strss (← (← arr v).mapM fun x => do (← arr x).mapM str)
+    | [.str "intss", v] => return .intss (← (← arr v).mapM fun x => do (← arr x).mapM int)
     | [.str "sized", v] => return .sized (← nat v)
     | [.str "enum", .str n] => return .enum n
     | _ => .error "bad python value"
